@@ -4,7 +4,7 @@
    connection (selected database 0 at the start) and its `lastdb`.  A write is (record index,
    database it lands in); -1 marks a script load.  `expected` is defined from the file and the
    configuration alone. *)
-From RS Require Import Base.Bytes Model.Filter Model.Workers Proofs.WorkersProofs.
+From RS Require Import Base.Bytes Model.Filter Model.Workers Model.PoolProto Proofs.WorkersProofs Proofs.PoolProofs Proofs.PoolLink.
 From Coq Require Import Permutation.
 Open Scope Z_scope.
 
@@ -32,6 +32,42 @@ Theorem C07_interleaving_irrelevant : forall (K V : Type) (keqb : K -> K -> bool
   forall ws ws' : list (K * V), Permutation ws ws' -> NoDup (map fst ws) -> forall k, holds K V keqb ws k = holds K V keqb ws' k.
 Proof. exact holds_perm. Qed.
 
+(* ---- the completion protocol (Model/PoolProto: parser goroutine, bounded channel, n workers,
+   WaitGroup, caller; a schedule is ANY list of enabled atomic steps of those goroutines) ----
+   The caller returns nil only when every record of the file has left the channel in file order
+   and was processed without error, nothing is left behind - and then the writes of all workers
+   together are exactly the expected ones. *)
+Theorem C07_returns_nil_only_after_all : forall cap c n (file : list (nat * went)) es (s : pst (nat * went)),
+  (0 < n)%nat -> prun cap (pinit file n) es = Some s -> ret s = Some true ->
+  map rec_of (taken s) = file /\
+  Permutation (all_writes c n (map worker_of (taken s)) file) (expected c file).
+Proof. exact returns_nil_after_all_writes. Qed.
+
+Theorem C07_complete_when_nil : forall (A : Type) cap (file : list A) n es (s : pst A),
+  (0 < n)%nat -> prun cap (pinit file n) es = Some s -> ret s = Some true ->
+  map rec_of (taken s) = file /\ forallb ok_of (taken s) = true /\ chan s = [] /\ unpushed s = [] /\ handled s = file.
+Proof. exact (@pool_returns_nil_only_when_complete). Qed.
+
+(* a failed restore is never swallowed: the caller returns an error exactly when some worker gave up *)
+Theorem C07_error_reported : forall (A : Type) cap (file : list A) n es (s : pst A) b,
+  prun cap (pinit file n) es = Some s -> ret s = Some b -> (b = false <-> failed s <> []).
+Proof. exact (@pool_error_reported). Qed.
+
+(* and no schedule gets stuck before the caller has returned *)
+Theorem C07_no_deadlock : forall (A : Type) cap (file : list A) n es (s : pst A),
+  (0 < cap)%nat -> prun cap (pinit file n) es = Some s -> ret s = None -> exists e, pstep cap s e <> None.
+Proof. exact (@pool_no_deadlock). Qed.
+
+(* a run of the protocol: 3 records, 2 workers, channel of 1; worker 1 fails on the last record *)
+Example C07_protocol_nonvacuous :
+  let run := prun 1 (pinit [10; 20; 30]%nat 2) in
+  (exists s, run [EPush; ETake 0 true; EPush; ETake 1 true; EPush; EClose; ETake 0 true; EExit 0; EExit 1; ERelease; EReturn] = Some s
+             /\ ret s = Some true /\ handled s = [10; 20; 30]%nat) /\
+  (exists s, run [EPush; ETake 0 true; EPush; ETake 1 true; EPush; EClose; ETake 1 false; EExit 0; ERelease; EReturn] = Some s
+             /\ ret s = Some false /\ failed s = [30]%nat) /\
+  run [EPush; ETake 0 true; ERelease] = None /\ run [EPush; EPush] = None.
+Proof. split; [eexists; vm_compute; repeat split|split; [eexists; vm_compute; repeat split|split; reflexivity]]. Qed.
+
 Example C07_nonvacuous :
   let c := {| w_f := {| key_black := [[x62]]; key_white := []; db_black := []; db_white := []; slot_list := []; filter_lua := false |};
               w_tdb := -1; w_full := true |} in
@@ -43,3 +79,7 @@ Proof. split; vm_compute; reflexivity. Qed.
 Print Assumptions C07_exactly_once_right_db.
 Print Assumptions C07_worker_in_order.
 Print Assumptions C07_interleaving_irrelevant.
+Print Assumptions C07_returns_nil_only_after_all.
+Print Assumptions C07_complete_when_nil.
+Print Assumptions C07_error_reported.
+Print Assumptions C07_no_deadlock.
